@@ -21,9 +21,9 @@ def rows(rnd):
         if m.get('origin'): extra=' — '+m['origin']
         out.append('| %s | %s | %s%s |'%(k,m['property'],clause,extra))
     return out
-r1,r2,r3,r4,r5,r6=[rows(i) for i in range(1,7)]
+r1,r2,r3,r4,r5,r6,r7=[rows(i) for i in range(1,8)]
 def nm(r): return len(r),sum('missed at first' in x for x in r)
-(n1,m1),(n2,m2),(n3,m3),(n4,m4),(n5,m5),(n6,m6)=[nm(r) for r in (r1,r2,r3,r4,r5,r6)]
+(n1,m1),(n2,m2),(n3,m3),(n4,m4),(n5,m5),(n6,m6),(n7,m7)=[nm(r) for r in (r1,r2,r3,r4,r5,r6,r7)]
 own=open('/verif/mutants/RESULTS.txt').read().strip().split('\n')
 ownrows=[]
 for l in own:
@@ -112,6 +112,20 @@ reference content has no power-of-two period.
 | seed | property | detected by (scenario / clause) |
 |---|---|---|
 '''%(n6,n6-m6,m6)+'\n'.join(r6)+'''
+
+**Round 7** (%d changes; the authors were told which *kinds* of slip rounds 1-6 had used up —
+narrowing, scratch arrays and pools, fast paths, sub-slices, dropped resets, off-by-one at the MTU,
+scanners, lock-free rewrites, many elements, huge frames — and asked for a different kind: operator
+precedence, capacity instead of length, nil versus empty, package-level state shared between
+instances, error and no-output paths that leave state behind, accessors that change what they
+read, wrong table entries): %d detected as the checks stood, %d missed at first. Before the seeds
+came back the harnesses had been given, for the same list of kinds, guarded input buffers
+(sentinels around the slice and in its spare capacity) and unrelated second instances interleaved
+with the instance under test.
+
+| seed | property | detected by (scenario / clause) |
+|---|---|---|
+'''%(n7,n7-m7,m7)+'\n'.join(r7)+'''
 
 What changed in response, as a rule rather than case by case: every property whose code handles a
 length, a count or an index now has a *scale* scenario next to its small-scope product, in which
